@@ -298,6 +298,10 @@ def InstKind.ctor : InstKind → Multi.Ctor
 /-- the barrier the constructors promise for the instance. -/
 def InstKind.barrier (k : InstKind) : Multi.Barrier := Multi.barrierOf k.ctor
 
+def barrierName : Multi.Barrier → String
+  | .sqlcPkg | .moncPkg => "the package-wide barrier"
+  | .custom k => s!"the caller's barrier number {k}"
+
 /-- the barrier object of an instance as observed: the common class number of its nodes (`none`: a node is not
 reached by the ring, or two nodes of the instance hold different barriers). -/
 def instBarrier (nodes : Nat) (l : List (Option Nat)) : Option Nat :=
@@ -322,7 +326,7 @@ def instClauses (nodes : Nat) (kinds : List InstKind) (obsKinds : List String) (
       match kinds[i]?, kinds[j]?, instBarrier nodes (bars[i]?.getD []), instBarrier nodes (bars[j]?.getD []) with
       | some ki, some kj, some bi, some bj =>
         if ki.barrier = kj.barrier ∧ bi ≠ bj then
-          some s!"single-loader: instances {i} and {j} are built by constructors that promise the same barrier ({repr ki.barrier}) but hold different barrier objects: concurrent reads of one key through them run separate database queries"
+          some s!"single-loader: instances {i} and {j} are built by constructors that promise the same barrier ({barrierName ki.barrier}) but hold different barrier objects: concurrent reads of one key through them run separate database queries"
         else if ki.barrier ≠ kj.barrier ∧ bi = bj then
           some s!"single-loader: instances {i} and {j} were given different barriers but hold the same barrier object"
         else none
